@@ -65,6 +65,8 @@ def strategy(tier, shard):
         plans = [draw(kill_plans) for _ in range(draw(st.integers(2, 3)))]
         return dict(problem=problem, solver=solver, f=draw(st.integers(1, 2)), m=draw(st.integers(1, 3)), async_=draw(st.booleans()),
                     route=route, plans=plans,
+                    # the run may consist of two solve() calls (checkpoints written by the second call hold a policy)
+                    split=draw(st.sampled_from([None, None, 1, 2, 3])),
                     # the restoring process may be killed too; half of those kills come before it commits anything new
                     second_kill=draw(st.one_of(st.none(), kill_plans, st.just(dict(family="point", when="before_save", j=1)),
                                                st.builds(lambda d: dict(family="delay", j=1, delay_us=d), st.integers(0, 2000)))))
@@ -112,11 +114,19 @@ def judge(case):
     try:
         # dry run: the reference trajectory
         dry_dir = base / "dry"
-        dry = ckpt.run_ok(dict(problem=problem, solver=ckpt.with_ckpt(sdesc, dry_dir, case["f"], case["m"], case["async_"]), calls=[LIMIT], snapshot=True))
+        split = case.get("split")
+        calls0 = [LIMIT] if not split else [int(split), LIMIT - int(split)]
+        dry = ckpt.run_ok(dict(problem=problem, solver=ckpt.with_ckpt(sdesc, dry_dir, case["f"], case["m"], case["async_"]), calls=calls0, snapshot=True))
         if dry["error"]:
             return verdict_fail("dry-run:" + dry["error"]["bucket"], f"{dry['error']}", classes=classes)
         snaps, final = dry["snapshots"], dry["final"]
         n_saves = len(dry["saves"])
+        if split:
+            classes.append("two-calls")
+            if dry["calls"][0]["iteration"] < int(split):
+                # the first call already converged: an uninterrupted single call from a restored state would stop earlier
+                # than the two-call dry run continues; not a crash-consistency question
+                return verdict_ok(nontrivial=False, classes=classes + ["first-call-converged"])
         if n_saves < 2:
             return verdict_ok(nontrivial=False, classes=classes + ["fewer-than-two-saves"])
         n_killed = 0
@@ -137,7 +147,7 @@ def judge(case):
                     kp["j"] = 1 + (kp["j"] - 1) % n_saves
                 plog = base / f"progress-{pi}-{ci}.log"
                 if ci == 0:
-                    scen = dict(problem=problem, solver=ckpt.with_ckpt(sdesc, d, case["f"], case["m"], case["async_"]), calls=[LIMIT],
+                    scen = dict(problem=problem, solver=ckpt.with_ckpt(sdesc, d, case["f"], case["m"], case["async_"]), calls=calls0,
                                 snapshot=False, progress_log=str(plog), kill=kp if kp["family"] != "syscall" else None)
                 elif case["route"] == "restore":
                     scen = dict(solver=dict(kind=kind, params={}), restore=dict(route="restore", dir=str(d)), until=LIMIT, snapshot=False,
